@@ -23,7 +23,7 @@
  *                "on_exit":2,"ops":[[op,args...],...]}]
  *              start:false = template only, instantiated by the op ["create","a0"].
  *
- * Every simulation runs under RLIMIT_CPU (3 s of CPU, env SIM_CPU_LIMIT): a spinning kernel ends with status 152.
+ * Every simulation runs under RLIMIT_CPU (8 s of CPU, env SIM_CPU_LIMIT): a spinning kernel ends with status 152.
  *
  * OUTPUT (stdout), one line per record, actors in pid order (per-actor buffers, never a shared stream):
  *   A <name> <pid> <seq> <event> <value> <clock %.17g>      record of an actor (seq from 0 per incarnation)
@@ -402,7 +402,7 @@ static int run_program(const json& prog, int argc, char** argv)
 {
   { // watchdog: a simulation that spins is a failure of its own (exit status 128+SIGXCPU=152), never a hung check
     const char* lim = getenv("SIM_CPU_LIMIT");
-    rlim_t sec      = lim ? (rlim_t)atol(lim) : 3;
+    rlim_t sec      = lim ? (rlim_t)atol(lim) : 8;
     struct rlimit rl{sec, sec + 2};
     setrlimit(RLIMIT_CPU, &rl);
   }
